@@ -413,7 +413,7 @@ def helper_spec(c):
     if op == "ashr":
         n, w = c["n"], c["w"]
         if w == 0 or c["nb"] == 0:
-            return ("L", c["dst0"][:c["nb"] // 8])
+            return ("L", c["dst0"])
         a = val(c["a"])
         if a >> w:
             return None
@@ -769,3 +769,83 @@ def parse_sim(line):
             vecs.append(outs)
         res[cfg] = vecs
     return res
+
+
+# ------------------------------------------------------------------------------------------------
+# extracted (OCaml) evaluation of the helper model: same wire lines as the harness
+# ------------------------------------------------------------------------------------------------
+HELPER_EXTRACT_V = """From VV Require Import Wide.WideModel.
+From Coq Require Import NArith ZArith List.
+Require Extraction.
+Require Import ExtrOcamlBasic.
+Extraction "wide_model.ml" N.add N.mul N.div_eucl nw pack_nb_width
+  wide_band wide_bor wide_bxor wide_bxor_not wide_band_not wide_bnot wide_copy
+  wide_add wide_sub wide_mul wide_negate wide_eq wide_ne wide_ucmp wide_scmp wide_scmp_asym
+  wide_resize wide_shl wide_lshr wide_ashr wide_is_nonzero wide_is_all_ones wide_popcnt_parity
+  wide_apply_mask wide_fill_ones.
+"""
+
+HELPER_DRIVER_ML = r"""
+open Wide_model
+let rec n_of_int (i : int) : n = if i = 0 then N0 else N.add (n_of_int (i - 1)) (Npos XH)
+let digit = Array.init 10 n_of_int
+let ten = n_of_int 10
+let n_of_string (s : string) : n =
+  let acc = ref N0 in
+  String.iter (fun c -> acc := N.add (N.mul !acc ten) digit.(Char.code c - 48)) s; !acc
+let rec int_of_pos = function XH -> 1 | XO p -> 2 * int_of_pos p | XI p -> 2 * int_of_pos p + 1
+let int_of_n = function N0 -> 0 | Npos p -> int_of_pos p
+let string_of_n (x : n) : string =
+  if x = N0 then "0" else begin
+    let b = Buffer.create 24 in
+    let cur = ref x in
+    let ds = ref [] in
+    while !cur <> N0 do
+      let (q, r) = N.div_eucl !cur ten in
+      ds := (int_of_n r) :: !ds; cur := q
+    done;
+    List.iter (fun d -> Buffer.add_char b (Char.chr (48 + d))) !ds; Buffer.contents b end
+let string_of_z = function Z0 -> "0" | Zpos p -> string_of_n (Npos p) | Zneg p -> "-" ^ string_of_n (Npos p)
+let limbs (s : string) : n list = if s = "-" then [] else List.map n_of_string (String.split_on_char ',' s)
+let show (l : n list) : string = if l = [] then "-" else String.concat "," (List.map string_of_n l)
+let run (t : string array) : string =
+  let nwof i = nw (n_of_string t.(i)) in
+  let nn i = n_of_string t.(i) in
+  match t.(0) with
+  | "band" -> show (wide_band (nwof 1) (limbs t.(2)) (limbs t.(3)))
+  | "bor" -> show (wide_bor (nwof 1) (limbs t.(2)) (limbs t.(3)))
+  | "bxor" -> show (wide_bxor (nwof 1) (limbs t.(2)) (limbs t.(3)))
+  | "bxor_not" -> show (wide_bxor_not (nwof 1) (limbs t.(2)) (limbs t.(3)))
+  | "band_not" -> show (wide_band_not (nwof 1) (limbs t.(2)) (limbs t.(3)))
+  | "add" -> show (wide_add (nwof 1) (limbs t.(2)) (limbs t.(3)))
+  | "sub" -> show (wide_sub (nwof 1) (limbs t.(2)) (limbs t.(3)))
+  | "mul" -> show (wide_mul (nwof 1) (limbs t.(2)) (limbs t.(3)))
+  | "bnot" -> show (wide_bnot (nwof 1) (limbs t.(2)))
+  | "negate" -> show (wide_negate (nwof 1) (limbs t.(2)))
+  | "copy" -> show (wide_copy (nwof 1) (limbs t.(2)))
+  | "eq" -> string_of_z (wide_eq (nwof 1) (limbs t.(2)) (limbs t.(3)))
+  | "ne" -> string_of_z (wide_ne (nwof 1) (limbs t.(2)) (limbs t.(3)))
+  | "ucmp" -> string_of_z (wide_ucmp (nwof 1) (limbs t.(2)) (limbs t.(3)))
+  | "scmp" -> string_of_z (wide_scmp (limbs t.(1)) (limbs t.(2)) (nn 3))
+  | "scmp_asym" -> string_of_z (wide_scmp_asym (limbs t.(1)) (limbs t.(2)) (nn 3) (nn 4))
+  | "resize" -> show (wide_resize (limbs t.(1)) (nn 2) (nn 3))
+  | "shl" -> show (wide_shl (nwof 1) (limbs t.(2)) (nn 3))
+  | "lshr" -> show (wide_lshr (nwof 1) (limbs t.(2)) (nn 3))
+  | "ashr" -> show (wide_ashr (limbs t.(1)) (limbs t.(2)) (nn 3) (nn 4))
+  | "is_nonzero" -> string_of_z (wide_is_nonzero (nwof 1) (limbs t.(2)))
+  | "popcnt" -> string_of_z (wide_popcnt_parity (nwof 1) (limbs t.(2)))
+  | "is_all_ones" -> string_of_z (wide_is_all_ones (limbs t.(1)) (nn 2))
+  | "apply_mask" -> show (wide_apply_mask (limbs t.(1)) (nn 2))
+  | "fill_ones" -> show (wide_fill_ones (limbs t.(1)) (nn 2))
+  | "pack" -> string_of_n (pack_nb_width (nn 1) (nn 2))
+  | o -> "ERR " ^ o
+let () =
+  try
+    while true do
+      let line = input_line stdin in
+      let t = Array.of_list (List.filter (fun s -> s <> "") (String.split_on_char ' ' line)) in
+      (try print_string ("OK " ^ run t) with e -> print_string ("ERR " ^ Printexc.to_string e));
+      print_newline ()
+    done
+  with End_of_file -> ()
+"""
